@@ -122,8 +122,19 @@ fn searches(tier: Tier) -> Vec<Search> {
         for shape in [Shape::One, Shape::Aliased, Shape::Distinct] {
             for origin in [Side::Rust, Side::Script] {
                 let full = shape == Shape::One && FULL_LENS.contains(&len);
-                let depth = if full { b.depth_seed_full } else { b.depth_seed };
-                v.push(Search { root: Root { shape, len, origin }, depth, types: seed_types.clone() });
+                let root = Root { shape, len, origin };
+                if full && tier == Tier::Quick {
+                    // quick: the deeper search from a full buffer only for one
+                    // element type per buffer discipline (1 byte, 8 bytes,
+                    // tracked 24 bytes, zero-sized)
+                    let deep = [T_U8, T_U64, T_TR, T_Z];
+                    let rest: Vec<TypeSpec> = seed_types.iter().copied().filter(|t| !deep.iter().any(|d| d.name == t.name)).collect();
+                    v.push(Search { root, depth: b.depth_seed_full, types: deep.to_vec() });
+                    v.push(Search { root, depth: b.depth_seed, types: rest });
+                } else {
+                    let depth = if full { b.depth_seed_full } else { b.depth_seed };
+                    v.push(Search { root, depth, types: seed_types.clone() });
+                }
             }
         }
     }
@@ -596,9 +607,9 @@ impl Check for C15 {
                 "seed_made_by": ["rust", "script"],
                 "swap_index_pairs": if b.swap_all_pairs { "all (i, j) of the index set" } else { "i in the index set, j in {0, len-1, len, MAX}" },
                 "cut_vs_design": if cfg.tier == Tier::Quick {
-                    "seeds searched to depth 2 (one-handle seeds of length 4, 8, 16: depth 3), not 4; Option<u32> only from the empty state to depth 3; a new list always goes to the lowest free slot and is only compared when no slot is free; literals are [] [a] [0,1] [1,0]"
+                    "seeds searched to depth 2 (one-handle seeds of length 4, 8, 16: depth 3 for u8, u64, Val<Tr>, Val<Z>), not 4; f64 from the empty state to depth 3 and in every seed, f32 and List<f64> from the empty state to depth 3 only; Option<u32> only from the empty state to depth 3; a new list always goes to the lowest free slot and is only compared when no slot is free; literals are [] [a] [0,1] [1,0]"
                 } else {
-                    "seeds searched to depth 3 (one-handle seeds of length 4, 8, 16: depth 4), not 6; Option<u32> from the empty state to depth 5, not 6; a new list always goes to the lowest free slot and is only compared when no slot is free; literals are [] [a] [0,1] [1,0]"
+                    "seeds searched to depth 3 (one-handle seeds of length 4, 8, 16: depth 4), not 6; f64, f32, List<f64> (three element values) from the empty state to depth 4, f64 also in every seed; Option<u32> from the empty state to depth 5, not 6; a new list always goes to the lowest free slot and is only compared when no slot is free; literals are [] [a] [0,1] [1,0]"
                 },
                 "zero_sized_doubling_family": {
                     "element_types": ["() held by Rust as List<()> (script-made list: no clone function)", "() inside one script", "record U { u: () } inside one script"],
